@@ -56,6 +56,15 @@ def ns_after(st0, m, name, val):
     return z3.Store(st0.heap.get("namespace", m), name, val)
 
 
+def ns_after_assign(st0, m, key, val):
+    """namespace of m after the assignment `m.<key> = val`: val is held under `key`; if it was held by m under another
+    name before (`m.b = m.a`), it has MOVED - an object has one name"""
+    ns0 = st0.heap.get("namespace", m)
+    prior = st0.heap.get("name", val)
+    moved = z3.And(z3.Not(st0.heap.get("name$none", val)), prior != key, z3.Select(ns0, prior) == val)
+    return z3.If(moved, z3.Store(z3.Store(ns0, key, val), prior, NULL), z3.Store(ns0, key, val))
+
+
 class AddBase(Contract):
     pure = False
     returns = "ref"
@@ -203,7 +212,7 @@ class ModuleSetattr(AddBase):
     def p_view(self, eng, st0, st, a, res):
         m, v = a.self.z, a.val.z
         name = zstr(a.key)
-        return z3.And(st.heap.get("namespace", m) == ns_after(st0, m, name, v),
+        return z3.And(st.heap.get("namespace", m) == ns_after_assign(st0, m, name, v),
                       st.heap.get("name", v) == name, z3.Not(st.heap.get("name$none", v)),
                       st.heap.get("_parent_module", v) == m)
 
@@ -483,7 +492,7 @@ class BundleAddMethod(AddBase):
 CONTRACTS = [ModuleAdd(), AttrTypeError(), ModuleSetattr(), ModuleAddMethod(), ModuleGet(), ModuleGetattr(),
              AlwaysRaises("hdl21.module:Module.__delattr__", ("C18",), ("self", "__name")),
              BundleAdd(), BundleAddMethod()]
-INLINE = {"hdl21.module:_assert_module_attr", "hdl21.module:_is_module_attr", "hdl21.bundle:assert_bundle_attr",
+INLINE = {"hdl21.module:_assert_module_attr", "hdl21.module:_is_module_attr", "hdl21.module:_drop", "hdl21.bundle:assert_bundle_attr",
           "hdl21.bundle:is_bundle_attr"}
 VERIFY = [c for c in CONTRACTS if not isinstance(c, AttrTypeError)]
 # __setattr__/__getattr__ hooks are always entered (inlined) at attribute accesses, never replaced by their contract
@@ -645,7 +654,7 @@ def decorator_loop_obligations():
                 if scen == "attribute":
                     goal = z3.And(z3.Select(ns1, k.z) == val.z, s2.heap.get("name", val.z) == k.z,
                                   z3.Not(s2.heap.get("name$none", val.z)), s2.heap.get(parent, val.z) == m.z,
-                                  ns1 == ns_after(st0, m.z, k.z, val.z))
+                                  ns1 == ns_after_assign(st0, m.z, k.z, val.z))
                     obs.append(Obligation(f"{pname}/post.as-assignment", "post", list(s2.pc), goal, key, scen, pi, meta))
                 else:
                     obs.append(Obligation(f"{pname}/post.forgotten", "post", list(s2.pc), ns1 == ns0, key, scen, pi, meta))
